@@ -26,14 +26,22 @@ def obligation_smt2(ob, axioms) -> str:
     return s.to_smt2()
 
 
+QFNRA_MARK = "; tactic:qfnra (quantifier-free, uninterpreted applications abstracted)\n"
+
+
 def _solve_z3_text(args):
     name, smt2, rlimit, timeout_ms = args
     t0 = time.time()
     try:
         ctx = z3.Context()
-        s = z3.Solver(ctx=ctx)
-        s.set("timeout", timeout_ms)
-        s.set("rlimit", rlimit)
+        if smt2.startswith(QFNRA_MARK):
+            tac = z3.TryFor(z3.Then("simplify", "propagate-values", "solve-eqs", "elim-term-ite", "qfnra", ctx=ctx),
+                            timeout_ms, ctx=ctx)
+            s = tac.solver()
+        else:
+            s = z3.Solver(ctx=ctx)
+            s.set("timeout", timeout_ms)
+            s.set("rlimit", rlimit)
         s.from_string(smt2)
         r = s.check()
         verdict = {"unsat": "proved", "sat": "refuted"}.get(str(r), "unknown")
